@@ -106,6 +106,20 @@ def mirror(in_rel, out_rel, path):
     return posixpath.normpath(posixpath.join(out_rel, posixpath.relpath(path, in_rel)))
 
 
+class ShortReadStringIO(io.StringIO):
+    """A text reader whose read(n) returns at most k characters per call (legal for any io reader); readline,
+    readlines and iteration behave normally."""
+
+    def __init__(self, text, k):
+        super().__init__(text)
+        self._k = k
+
+    def read(self, n=-1):
+        if n is None or n < 0:
+            return super().read()
+        return super().read(min(n, self._k))
+
+
 def _decode_universal(data):
     return io.TextIOWrapper(io.BytesIO(data), encoding="utf-8", newline=None).read()
 
@@ -150,7 +164,8 @@ def run_step(fs, proc, step, hist):
                     else:
                         text = _decode_universal(bytes(fs.files[src]))
                         o_io = io.StringIO()
-                        fa.anonymize_io(io.StringIO(text), o_io)
+                        k = (fs.knobs or {}).get("max_read")
+                        fa.anonymize_io(ShortReadStringIO(text, k) if k else io.StringIO(text), o_io)
                         fs.files[dst] = bytearray(o_io.getvalue().encode("utf-8"))
                         fs.handed[dst] = [o_io.getvalue()]
                 except Exception as e:
